@@ -187,6 +187,11 @@ func exportedSentinels(p *Program) []*ssa.Global {
 // classify pushes one internal error through mapper and returns the exported sentinels the result matches.
 // src is "*pkg.Type", "pkg.Type" or "pkg.GlobalSentinel".
 func classifyError(p *Program, mapper *ssa.Function, src string) (pub string, cats []string, why string) {
+	return classifyErrorWith(p, mapper, src, nil)
+}
+
+// classifyErrorWith: as classifyError, with the given parameters (by index) fixed to constants.
+func classifyErrorWith(p *Program, mapper *ssa.Function, src string, consts map[int]constant.Value) (pub string, cats []string, why string) {
 	d, e := newErrDom(p)
 	st := d.base.clone()
 	var errv AV
@@ -238,6 +243,8 @@ func classifyError(p *Program, mapper *ssa.Function, src string) (pub string, ca
 	for k, prm := range mapper.Params {
 		if isErrorType(prm.Type()) && !placed {
 			margs[k], placed = errv, true
+		} else if cv, ok := consts[k]; ok {
+			margs[k] = avConst{cv}
 		} else {
 			margs[k] = avSym{id: e.fresh(), tag: "arg:" + prm.Name()}
 		}
